@@ -412,7 +412,7 @@ def gen_c10(rnd, n, thorough=False):
         elif rnd.chance(0.3):
             hold = ' remote=1'         # the files summed by a server (the same sum)
         if hold == '':
-            hold = ' probe=1'          # a sum -- accepted or rejected -- holds none of its files when it returns
+            hold = ' again=1'          # a sum -- accepted or rejected -- can be repeated at once, with the same verdict
         lines.append("clisum base=s item=%s src=%s from=%s until=%s archive=%d header=%d%s spell=%d" % (itempat, srcpat, frm, until, arch, rnd.pick([0, 1]), hold, rnd.pick([0, 0, 1, 2, 3, 4])))
         if kind == 'first_fresh':
             srcpat = '*.wsp'
